@@ -1,5 +1,6 @@
 import XtModel.Model.Wire
 import XtModel.Model.Encoding
+import XtModel.Model.TranscodeWire
 
 /-!
 Native driver: one case per input line, one answer per output line
@@ -59,6 +60,8 @@ def encoding (fs : List String) : String :=
 def answer (fs : List String) : String :=
   match fs with
   | "encdetect" :: _ | "reencode" :: _ | "reencstream" :: _ => encoding fs
+  | ["transcode", tree, script] => Xt.TranscodeWire.runTranscode tree script
+  | ["valuepath", tree, script] => Xt.TranscodeWire.runValuePath tree script
   | _ => "bad-engine"
 
 partial def loop (h : IO.FS.Stream) (out : IO.FS.Stream) : IO Unit := do
